@@ -200,6 +200,16 @@ const SUSPECTS: &[(Feature, &str)] = &[
     (Feature::SvcbRelativeTarget, "svcb-relative-target-not-completed-with-origin"),
 ];
 
+/// the suspects whose finding is still recorded as `known`: a layout whose defect has been fixed in
+/// /repo is neither avoided nor an explanation any more, and a regression is a plain VIOLATION
+fn active_suspects() -> &'static Vec<(Feature, &'static str)> {
+    static A: std::sync::OnceLock<Vec<(Feature, &'static str)>> = std::sync::OnceLock::new();
+    A.get_or_init(|| {
+        let known = crate::core::known_signatures("C20");
+        SUSPECTS.iter().filter(|(_, sig)| known.iter().any(|k| k == sig)).cloned().collect()
+    })
+}
+
 fn render_case(text: &str) -> String {
     let mut t = text.replace('\r', "\\r").replace('\t', "\\t");
     if t.len() > 700 {
@@ -228,7 +238,7 @@ fn exact_case(tier: Tier, extended: bool) -> impl Strategy<Value = ExactCase> {
 
 fn exact_body(c: &ExactCase, rec: &mut Rec) -> CaseResult {
     let z = &c.zone;
-    let base: Features = if c.avoid_known_fragile { SUSPECTS.iter().map(|(f, _)| *f).collect() } else { Features::new() };
+    let base: Features = if c.avoid_known_fragile { active_suspects().iter().map(|(f, _)| *f).collect() } else { Features::new() };
     if let Some(reason) = zp::out_of_domain(z) {
         rec.discard(reason);
         return Ok(());
@@ -310,7 +320,7 @@ fn exact_body(c: &ExactCase, rec: &mut Rec) -> CaseResult {
         }
     };
     // ---- attribution to a known layout feature ------------------------------------------------
-    let used: Vec<(Feature, &str)> = SUSPECTS.iter().filter(|(f, _)| feats.contains(f)).cloned().collect();
+    let used: Vec<(Feature, &str)> = active_suspects().iter().filter(|(f, _)| feats.contains(f)).cloned().collect();
     if !used.is_empty() {
         let all: Features = used.iter().map(|(f, _)| *f).collect();
         let (clean_text, _) = zp::print(z, &all);
